@@ -133,6 +133,7 @@ def _perturb(rnd, spec):
 
 class C15(Property):
     id = "C15"
+    anchors = ('finam.data.grid_base:StructuredGrid.to_canonical', 'finam.data.grid_base:StructuredGrid.from_canonical', 'finam.data.grid_base:StructuredGrid.get_transform_to', 'finam.data.grid_base:StructuredGrid.compatible_with', 'finam.sdk.input:Input._convert_and_check')
     technique = "located-value encoding oracle over all ordered layout pairs: helper level (canonical round trip, transform with/without time axis, compatible_with) and real Output>>Input links, masked and unmasked"
     rule = (
         "ordered pairs of layouts (order x axes_reversed x per-axis direction) of one geometry in 1-3 D, cell and point data, "
